@@ -12,6 +12,7 @@ from engine.twins import TwinSpec, project, first_difference, count_events
 from engine.util import own_nodes, calls_with_nodes, where, optional_numeric_params, truthiness_uses
 
 RULES = {
+    "R-18.8": "the header fields is_response compares are extracted whole: opcode.from_flags inverts opcode.to_flags for all sixteen opcodes whatever the other flag bits are (evaluated by the checker on the two return expressions), so opcodes 8..15 do not alias 0..7; and every dns.asyncquery function has the parameter defaults of its dns.query twin, an option only the async side has defaulting to its 'off' value (False/None/0)",
     "R-18.7": "backend sockets take a RELATIVE timeout: every timeout argument handed to an async socket method (sendall/recv/sendto/recvfrom) in dns/asyncquery.py is `_timeout(<expiration>)` or a local computed from it - never the absolute expiration itself (a timestamp read as seconds never expires)",
     "R-18.6": "an expired deadline surfaces as dns.exception.Timeout on every backend: in the asyncio backend asyncio.wait_for is called only inside _maybe_wait_for (which translates asyncio.TimeoutError), and that translation is in place - a bare TimeoutError is an OSError, which callers read as 'the server is broken'",
     "R-18.5": "a deadline is an absolute expiration; the relative timeout handed to a blocking call inside a loop (`_timeout(expiration)` / `_remaining(expiration)`) is computed on every trip, never once before the loop - otherwise n fragments may each take the whole budget and the exchange outlives its deadline without a Timeout",
@@ -326,6 +327,50 @@ def run(model, rep, tier):
     okk = any(h.type is not None and "TimeoutError" in src(h.type) and any(isinstance(x, ast.Raise) and "dns.exception.Timeout" in src(x) for x in ast.walk(h)) for h in hs)
     rep.check(okk, "R-18.6", mw.qualname, where(mw, mw.node), "asyncio.TimeoutError is translated to dns.exception.Timeout", "_maybe_wait_for no longer translates asyncio.TimeoutError into dns.exception.Timeout", stmt="timeout-translation")
     rep.floor("R-18.6", n_wf, 1)
+    # ---------------------------------------------------------------- R-18.8
+    from engine.minieval import evaluate, Unsupported
+    ff, tf = model.func("dns.opcode.from_flags"), model.func("dns.opcode.to_flags")
+    try:
+        rf = [r for r in ast.walk(ff.node) if isinstance(r, ast.Return)][0].value
+        rt_ = [r for r in ast.walk(tf.node) if isinstance(r, ast.Return)][0].value
+        inner = rf.args[0] if isinstance(rf, ast.Call) and len(rf.args) == 1 else rf
+        pf, pt = [p_ for p_ in ff.params()][0], [p_ for p_ in tf.params()][0]
+        fold = lambda nd: model.const(ff.module, nd)
+        bad_ops = []
+        for v in range(16):
+            w = evaluate(rt_, {pt: v}, fold)
+            for other in (0, 0x87FF):
+                if (w & other) != 0 and other == 0x87FF and (w & 0x87FF):
+                    bad_ops.append((v, "to_flags touches other bits"))
+                got = evaluate(inner, {pf: w | other}, fold)
+                if got != v:
+                    bad_ops.append((v, got))
+        rep.check(not bad_ops, "R-18.8", ff.qualname, where(ff, ff.node), "from_flags(to_flags(v) | other bits) == v for v in 0..15",
+                  f"from_flags / to_flags are not inverse for opcodes {sorted({b[0] for b in bad_ops})} (e.g. opcode {bad_ops[0][0]} reads back as {bad_ops[0][1]}): a forged reply whose opcode differs from the query's "
+                  "only in the dropped bit passes is_response" if bad_ops else "", stmt="opcode-field")
+    except (Unsupported, IndexError, AnalysisError) as e:
+        rep.blind("R-18.8", ff.qualname, where(ff, ff.node), f"opcode field expressions not evaluable: {e}", stmt="opcode-field")
+    n_tw = 0
+    for fa in sorted(model.all_functions(), key=lambda g: g.qualname):
+        if fa.module.name != "dns.asyncquery" or fa.cls is not None or fa.name.startswith("_"):
+            continue
+        fs_ = model.functions.get("dns.query." + fa.name)
+        if fs_ is None:
+            continue
+        def defaults(fn_):
+            a_ = fn_.node.args
+            allp = list(a_.posonlyargs) + list(a_.args)
+            d_ = {p_.arg: src(dv) for p_, dv in zip(allp[len(allp) - len(a_.defaults):], a_.defaults)}
+            d_.update({p_.arg: src(dv) for p_, dv in zip(a_.kwonlyargs, a_.kw_defaults) if dv is not None})
+            return d_
+        da, ds = defaults(fa), defaults(fs_)
+        n_tw += 1
+        diff = sorted(k for k in da if k in ds and da[k] != ds[k] and k not in ("backend", "sock", "client", "session"))
+        only_a = sorted(k for k in da if k not in ds and k not in ("backend",) and da[k] not in ("False", "None", "0", "''", "b''"))
+        rep.check(not diff and not only_a, "R-18.8", fa.qualname, where(fa, fa.node), "same parameter defaults as its sync twin",
+                  f"defaults differ from dns.query.{fa.name}: " + ", ".join([f"{k}: async {da[k]} / sync {ds[k]}" for k in diff] + [f"{k} (async only) defaults to {da[k]}" for k in only_a]) +
+                  " - callers that do not pass the option get a different acceptance policy on the async side (e.g. lenient parsing returns a damaged reply as genuine)", stmt="twin-defaults")
+    rep.floor("R-18.8-twins", n_tw, 10)
     # ---------------------------------------------------------------- R-18.7
     POS = {"sendall": 1, "recv": 1, "sendto": 2, "recvfrom": 1}
     n_rel = 0
@@ -349,6 +394,12 @@ def run(model, rep, tier):
 
 
 WITNESSES = [
+    {"id": "c18-opcode-from-flags-three-bits", "rule": "R-18.8", "file": "dns/opcode.py", "expect": "fires",
+     "old": "    return Opcode((flags & 0x7800) >> 11)", "new": "    return Opcode((flags >> 11) & 0x7)"},
+    {"id": "c18-twin-opcode-from-flags-shift-first", "rule": "R-18.8", "file": "dns/opcode.py", "expect": "silent",
+     "old": "    return Opcode((flags & 0x7800) >> 11)", "new": "    return Opcode((flags >> 11) & 0xF)"},
+    {"id": "c18-async-receive-tcp-lenient-default", "rule": "R-18.8", "file": "dns/asyncquery.py", "expect": "fires",
+     "old": "    ignore_trailing: bool = False,\n    ignore_errors: bool = False,\n) -> tuple[dns.message.Message, float]:\n    \"\"\"Read a DNS message from a TCP socket.", "new": "    ignore_trailing: bool = False,\n    ignore_errors: bool = True,\n) -> tuple[dns.message.Message, float]:\n    \"\"\"Read a DNS message from a TCP socket."},
     {"id": "c18-async-xfr-sendall-absolute-expiration", "rule": "R-18.7", "file": "dns/asyncquery.py", "expect": "fires",
      "old": "        await tcp_sock.sendall(tcpmsg, _timeout(expiration))", "new": "        await tcp_sock.sendall(tcpmsg, expiration)"},
     {"id": "c18-stream-recv-bare-wait-for", "rule": "R-18.6", "file": "dns/_asyncio_backend.py", "expect": "fires",
